@@ -32,7 +32,9 @@ package scheduling
 //@   ensures [minvalues] result.MinValues == r.MinValues
 //@   ensures [overadmit] forall v string :: k8sAdmits(result.Operator, result.Values, v) <==> (admits(r, v) || (r.complement && hasBound(r) && (v in r.values) && inB(v, r.gte, r.lte)))
 //@   ensures [roundtrip-weak] !lostExclusion(r) ==> forall v string :: k8sAdmits(result.Operator, result.Values, v) <==> admits(r, v)
+//@   ensures [lost] lostExclusion(r) ==> exists v string :: k8sAdmits(result.Operator, result.Values, v) && !admits(r, v)
 //@   ensures [roundtrip] forall v string :: k8sAdmits(result.Operator, result.Values, v) <==> admits(r, v)
+//@   finding C13-bound-drops-exclusions [roundtrip] lostExclusion(r)
 
 //@ func (*Requirement).BoundedNodeSelectorRequirements
 //@   prop C13
@@ -46,7 +48,9 @@ package scheduling
 //@   ensures [minvalues] result[0].MinValues == r.MinValues && result[1].MinValues == r.MinValues
 //@   ensures [overadmit] forall v string :: (k8sAdmits(result[0].Operator, result[0].Values, v) && k8sAdmits(result[1].Operator, result[1].Values, v)) <==> (admits(r, v) || ((v in r.values) && inB(v, r.gte, r.lte)))
 //@   ensures [roundtrip-weak] !lostExclusion(r) ==> forall v string :: (k8sAdmits(result[0].Operator, result[0].Values, v) && k8sAdmits(result[1].Operator, result[1].Values, v)) <==> admits(r, v)
+//@   ensures [lost] lostExclusion(r) ==> exists v string :: k8sAdmits(result[0].Operator, result[0].Values, v) && k8sAdmits(result[1].Operator, result[1].Values, v) && !admits(r, v)
 //@   ensures [roundtrip] forall v string :: (k8sAdmits(result[0].Operator, result[0].Values, v) && k8sAdmits(result[1].Operator, result[1].Values, v)) <==> admits(r, v)
+//@   finding C13-bound-drops-exclusions [roundtrip] lostExclusion(r)
 
 // ---- serialization of a requirement set (what ToNodeClaim writes into NodeClaim.Spec.Requirements) ----
 //
@@ -54,22 +58,55 @@ package scheduling
 // The entries emitted for key k are the entries whose Key is k.
 // [no-stricter] + [no-laxer] together are the round trip; [roundtrip] states it in the "all entries" form.
 //@ pure rsKeyed(rs Requirements) bool = forall k string {k in rs} :: k in rs ==> rs[k].Key == k
+//@ pure ownSel(a []v1.NodeSelectorRequirementWithMinValues) bool = loc(a) == nil || fresh(a)
 //@ pure rsInt64(rs Requirements) bool = forall k string {k in rs} :: k in rs ==> boundsInt64(rs[k])
 
 //@ func (Requirements).NodeSelectorRequirements
 //@   prop C13
 //@   requires [inv] rsInv(r) && rsKeyed(r)
 //@   requires [machineint] rsInt64(r)
+//@   hides admits, k8sAdmits, lostExclusion, inB, contains
+//@   requires [maplen] len(r) >= 0      // tautology; works around an engine defect (cardinality fact of len(map) lost after the loop dry pass)
 //@   modifies nothing
 //@   nopanic
-//@   ensures [fresh] fresh(result)
+//@   ensures [fresh] ownSel(result)
 //@   ensures [keys] forall j int {result[j]} :: 0 <= j && j < len(result) ==> ((result[j].Key in r) && result[j].MinValues == r[result[j].Key].MinValues)
 //@   ensures [covered] forall k string {k in r} :: k in r ==> (exists j int {result[j]} :: 0 <= j && j < len(result) && result[j].Key == k)
 //@   ensures [no-stricter] forall j int {result[j]} :: 0 <= j && j < len(result) ==> (forall v string :: admits(r[result[j].Key], v) ==> k8sAdmits(result[j].Operator, result[j].Values, v))
 //@   ensures [no-laxer] forall k string {k in r} :: k in r ==> (forall v string :: !admits(r[k], v) ==> (exists j int {result[j]} :: 0 <= j && j < len(result) && result[j].Key == k && !k8sAdmits(result[j].Operator, result[j].Values, v)))
 //@   ensures [roundtrip] forall k string {k in r} :: k in r ==> (forall v string :: (forall j int {result[j]} :: (0 <= j && j < len(result) && result[j].Key == k) ==> k8sAdmits(result[j].Operator, result[j].Values, v)) <==> admits(r[k], v))
-//@   loop 1 invariant [fresh] fresh(result) && len(result) >= 0
+//@   loop 1 invariant [fresh] ownSel(result) && len(result) >= 0
 //@   loop 1 invariant [keys] forall j int {result[j]} :: 0 <= j && j < len(result) ==> ((result[j].Key in r) && seen(result[j].Key) && result[j].MinValues == r[result[j].Key].MinValues)
 //@   loop 1 invariant [covered] forall k string {seen(k)} :: seen(k) ==> (exists j int {result[j]} :: 0 <= j && j < len(result) && result[j].Key == k)
 //@   loop 1 invariant [no-stricter] forall j int {result[j]} :: 0 <= j && j < len(result) ==> (forall v string :: admits(r[result[j].Key], v) ==> k8sAdmits(result[j].Operator, result[j].Values, v))
 //@   loop 1 invariant [no-laxer] forall k string {seen(k)} :: seen(k) ==> (forall v string :: !admits(r[k], v) ==> (exists j int {result[j]} :: 0 <= j && j < len(result) && result[j].Key == k && !k8sAdmits(result[j].Operator, result[j].Values, v)))
+
+// ---- Requirement.Any (C13, last sentence: building the NodeClaim never panics) ----
+//
+// Any draws rand.Intn(anyHi - anyLo) + anyLo for a complement requirement. rand.Intn panics for a non-positive
+// argument. The engine's ints are mathematical, so the absence of overflow in `*r.lte + 1` and `max - min` is
+// stated by hand ([nooverflow]); with wrap-around arithmetic the draw width is only meaningful then.
+// anyOK is the weakest precondition (over mathematical ints) for: no panic, no overflow.
+//@ pure anyLo(r *Requirement) int = (r.gte == nil ? 0 : *r.gte)
+//@ pure anyHi(r *Requirement) int = (r.lte == nil ? math.MaxInt64 : *r.lte + 1)
+//@ pure anyOK(r *Requirement) bool = r.complement ==> ((r.lte != nil ==> *r.lte < math.MaxInt64) && anyLo(r) < anyHi(r) && anyHi(r) - anyLo(r) <= math.MaxInt64)
+
+//@ func (*Requirement).Any
+//@   prop C13
+//@   requires [inv] reqInv(r)
+//@   requires [range] anyOK(r)
+//@   modifies nothing
+//@   nopanic
+//@   let n = @rand.Intn + anyLo(r)
+//@   ensures [in] !r.complement && len(r.values) > 0 ==> ((result in r.values) && admits(r, result))
+//@   ensures [none] !r.complement && len(r.values) == 0 ==> result == ""
+//@   ensures [drawn] r.complement ==> (anyLo(r) <= n && n < anyHi(r) && (r.gte != nil ==> n >= *r.gte) && (r.lte != nil ==> n <= *r.lte) && 0 <= n - anyLo(r) && n <= math.MaxInt64)
+//
+// validatedBounds: all that NodePool validation (ValidateRequirement: bound operands are integers >= 0) plus the
+// constructors (Gt n -> gte n+1, Lt n -> lte n-1, Gt MaxInt -> DoesNotExist, Intersection collapses gte > lte)
+// guarantee about the bounds. anyOK does NOT follow from it: see lemma-like clause list in the report
+// (Lt 0; Lte MaxInt64; Gte MaxInt64 / Gt MaxInt64-1).
+//@ pure validatedBounds(r *Requirement) bool = (r.gte != nil ==> (0 <= *r.gte && *r.gte <= math.MaxInt64)) && (r.lte != nil ==> (0 - 1 <= *r.lte && *r.lte <= math.MaxInt64)) && ((r.gte != nil && r.lte != nil) ==> *r.gte <= *r.lte)
+// The validated requirements on which Any is NOT safe are exactly: `Lt 0` alone (lte == -1, no lower bound),
+// any upper bound `Lte MaxInt64`, and a lone lower bound `Gte MaxInt64` (or `Gt MaxInt64-1`).
+//@ lemma anyUnsafeValidated [C13]: forall r *Requirement :: (reqInv(r) && validatedBounds(r)) ==> (!anyOK(r) <==> (r.complement && ((r.lte != nil && *r.lte == math.MaxInt64) || (r.gte == nil && r.lte != nil && *r.lte == 0 - 1) || (r.lte == nil && r.gte != nil && *r.gte == math.MaxInt64))))
